@@ -15,8 +15,9 @@ from common import cz, clist, cpair
 CTYPE = {8: "8", 16: "16", 32: "32", 64: "64"}
 
 
-def c06_desc(rng, odd):
-    """One flat CAN message (1..8 signals, any order of types, offsets up to 64 bits); `odd` admits widths outside 8/16/32/64."""
+def c06_desc(rng, odd, big=False):
+    """One flat CAN message (1..8 signals, any order of types, offsets up to 64 bits); `odd` admits widths outside 8/16/32/64;
+    `big`: whole-byte integers only, a random subset of them declared big-endian (signal blocks)."""
     # the largest enumerator decides the width: just below, at and just above powers of two, also beyond one byte
     top = rng.choice([2, 3, 5, 9, 17, 200, 255, 256, 256, 257, 300, 512, 512, 65536])
     packed = 1 if top <= 1 else top.bit_length()
@@ -34,6 +35,9 @@ def c06_desc(rng, odd):
         else:
             w = rng.choice([8, 8, 16, 32, 64]) if not (odd and rng.random() < 0.5) else rng.choice([1, 3, 4, 7, 12, 24, 33])
             t = (rng.choice(["u", "i"]), w)
+        if big:
+            w = rng.choice([8, 16, 16, 32, 32, 64])
+            t = (rng.choice(["u", "i", "i"]), w)
         if total + w > 64:
             continue
         fields.append({"name": f"s{j}", "id": j, "type": t}); total += w
@@ -51,8 +55,14 @@ def c06_desc(rng, odd):
                     {"protocol": "can", "type": f"Oth{q}", "name": f"Oth{q}", "signals": [],
                      "fields": [("id", (mid + 1 + q) % 2048), ("device", rng.choice(["ecu", "ecu", "dash"]))] + ([("period", rng.choice([10, 100]))] if rng.random() < 0.3 else [])}))
     cut = rng.randint(0, len(sib))
+    single = big and rng.random() < 0.5
+    if single:
+        fields = fields[:1]
     main = ({"name": "Msg", "fields": fields},
-            {"protocol": "can", "type": "Msg", "name": "Msg", "fields": [("id", mid), ("device", "ecu")], "signals": []})
+            {"protocol": "can", "type": "Msg", "name": "Msg", "fields": [("id", mid), ("device", "ecu")],
+             # (the spelling the C generator reads, as in the repository's own C test 005_big_endian; half of the time the message has
+             # one signal only, see the finding c-big-endian-multi-signal)
+             "signals": ([{"name": f["name"], "fields": [("endianness", "big")]} for f in fields if single or rng.random() < 0.6] if big else [])})
     for st, im in sib[:cut] + [main] + sib[cut:]:
         desc["structs"].append(st)
         desc["impls"].append(im)
@@ -130,10 +140,18 @@ def gen_member(rng, p):
     return rng.choice([0, 1, (1 << n) - 1, rng.randrange(1 << n)])
 
 
+def is_big(p):
+    """The signal option the C generator reads (own reading of the signal block, not the generator's)."""
+    return p.extended_data.get("endianness") == "big"
+
+
 def reference_word(pieces, vals):
     w = 0
     for p, v in zip(pieces, vals):
-        w |= (v & ((1 << p.bitlength) - 1)) << p.bitstart
+        x = v & ((1 << p.bitlength) - 1)
+        if is_big(p):                         # a whole-byte leaf: its bytes in the opposite order
+            x = int.from_bytes(x.to_bytes(p.bitlength // 8, "big"), "little")
+        w |= x << p.bitstart
     return w
 
 
@@ -143,7 +161,7 @@ def run(chk):
     nsch, nval = (48, 30) if quick else (1200, 80)
     broken = chk.proof_obligations(["Corr/CanC.vo"])
     chk.coverage["rule"] = (
-        "one flat CAN message per schema (with up to three sibling messages on the same or another device before and after it, frame ids incl. 0 and 2047): 1-8 signals in any order of types (8/16/32/64-bit integers, f32, f64, an enum whose largest enumerator lies around a power of two up to 65536, exercised with its own enumerators; in a third of the schemas "
+        "one flat CAN message per schema (with up to three sibling messages on the same or another device before and after it, frame ids incl. 0 and 2047): 1-8 signals in any order of types (8/16/32/64-bit integers, f32, f64, an enum whose largest enumerator lies around a power of two up to 65536, exercised with its own enumerators; every fifth schema: whole-byte integers of which a random subset is declared big-endian - tested against the reference packing only, not modelled; in a third of the schemas "
         "also widths outside 8/16/32/64), offsets up to 64 bits; the real generator's C is compiled with gcc -O1 -fno-strict-aliasing against a "
         "generated driver that fills the message struct, calls can_encode_msg and can_decode_msg; frame (id, dlc, data) and decoded members are "
         "compared in Coq with the model; non-trivial = >= 2 signals; distinct = (schema, values)")
@@ -152,7 +170,7 @@ def run(chk):
     try:
         jobs = []
         for k in range(nsch):
-            desc = c06_desc(chk.rng, odd=(k % 3 == 2))
+            desc = c06_desc(chk.rng, odd=(k % 3 == 2), big=(k % 5 == 4))
             jobs.append((gen_schema.render(desc), f"{work}/m{k}"))
         built = [build_one(j) for j in jobs]     # the generator is not thread safe; gcc is quick
         chk.coverage["programs"] = sum(1 for b in built if b[3])
@@ -195,14 +213,26 @@ def run(chk):
                     zeros = (0, 1 << 31) if type(p.type) is T.FloatType else ((0, 1 << 63) if type(p.type) is T.DoubleType else ())
                     if q < len(dec) and v in zeros and dec[q] in zeros:
                         dec[q] = v
-                cases.append(cpair(sterm, iterm, clist(cz(v) for v in vals), f"(ORun {cz(fid)} {cz(dlc)} {cz(word)} {clist(cz(v) for v in dec)})"))
-                meta.append((text, vals))
+                if not any(is_big(p) for p in pieces):
+                    # (big-endian leaves are outside the Coq model of the C code: for them the predicate below, against the reference
+                    # packing, is a test and no theorem speaks about them)
+                    cases.append(cpair(sterm, iterm, clist(cz(v) for v in vals), f"(ORun {cz(fid)} {cz(dlc)} {cz(word)} {clist(cz(v) for v in dec)})"))
+                    meta.append((text, vals))
+                else:
+                    chk.hist("big_endian_messages_tested_only", 1)
                 chk.count((text, tuple(vals)), nontrivial=len(pieces) >= 2, sample={"schema": text, "values": vals, "frame": [fid, dlc, word], "decoded": dec})
                 # the property's predicate on the implementation
                 f32_off = any(type(p.type) is T.FloatType and p.bitstart != 0 for p in pieces)
-                ok = (fid == im.fields["id"] and dlc == -(-total // 8) and word == reference_word(pieces, vals) and dec == vals)
+                # (with a big-endian signal the bytes past the DLC may hold the sign extension of a swapped negative value: they are not data
+                # bytes of the frame, so the comparison is over the DLC's bytes; without one the whole 64-bit word is compared, as in the model)
+                dmask = (1 << (8 * -(-total // 8))) - 1 if any(is_big(p) for p in pieces) else (1 << 64) - 1
+                ok = (fid == im.fields["id"] and dlc == -(-total // 8) and word & dmask == reference_word(pieces, vals) and dec == vals)
+                big_multi = len(pieces) > 1 and any(is_big(p) for p in pieces)
                 if not ok:
-                    if f32_off and chk.find_known("c-f32-offset"):
+                    if big_multi and chk.find_known("c-big-endian-multi-signal"):
+                        chk.known_finding("c-big-endian-multi-signal", "a big-endian signal in a message of several signals: the encoder byte-swaps the 64-bit bitfield after "
+                                          "set_bitfield has shifted it into place (lost at a non-zero offset), and a negative signed one is sign-extended over the signals after it")
+                    elif f32_off and chk.find_known("c-f32-offset"):
                         chk.known_finding("c-f32-offset", "an f32 signal at a non-zero bit offset is shifted inside a 32-bit word by can_encode_signal_from_float and loses its high bits")
                     else:
                         fails.append({"kind": "c-frame-or-decode-differs-from-layout-packing", "schema": text, "values": vals, "frame": [fid, dlc, word],
